@@ -82,7 +82,7 @@ func (u *Unit) event(fr *Frame, st *State, name string, binds map[string]Val, wh
 		}
 	}
 	for _, h := range hooks {
-		if h.Event != name {
+		if h.Event != name && u.eng.normEvent(h.Event) != name {
 			continue
 		}
 		env := u.newEnv(fr, st, u.entry)
@@ -310,6 +310,9 @@ func (u *Unit) modularCall(fr *Frame, st *State, fn *ssa.Function, fc *FuncContr
 	for _, c := range fc.Ensures {
 		u.assume(st.pc, u.evalBool(env2, c.Expr))
 	}
+	for _, c := range fc.Defines {
+		u.assume(st.pc, u.evalBool(env2, c.Expr))
+	}
 	bindResult(m, res)
 	u.event(fr, st, "ret "+bare, m, where)
 	return res
@@ -455,7 +458,7 @@ func (u *Unit) execGo(fr *Frame, st *State, x *ssa.Go, where string) {
 		m = bindArgs(paramNames(target), args)
 	}
 	// tracking by the wait group
-	exempt := u.fc != nil && u.fc.Flags["spawn_exempt"]
+	exempt := u.fc != nil && (u.fc.Flags["spawn_exempt"] || u.fc.Flags["spawn_exempt:"+name])
 	if !exempt && u.spawnDepth == 0 {
 		wg, ok := st.ghost["wgadd"]
 		if !ok {
@@ -579,7 +582,6 @@ var nilCheckedIfaces = map[string][]string{
 	"context.Context": {"C09"},
 	"Entry":           {"C13"},
 	"error":           {"C13"},
-	"natsmock.Entry":  {"C13"},
 }
 
 func (u *Unit) invoke(fr *Frame, st *State, cc *ssa.CallCommon, recv Val, args []Val, where string) Val {
@@ -636,4 +638,18 @@ func (u *Unit) invoke(fr *Frame, st *State, cc *ssa.CallCommon, recv Val, args [
 	}
 	u.event(fr, st, "ret "+full, m, where)
 	return res
+}
+
+// normEvent rewrites "call T.m" to "call m" when T.m is a package function
+// (events of package functions carry the bare name).
+func (e *Engine) normEvent(ev string) string {
+	i := strings.Index(ev, " ")
+	if i < 0 {
+		return ev
+	}
+	kind, target := ev[:i], ev[i+1:]
+	if _, ok := e.funcs[target]; ok {
+		return kind + " " + bareName(target)
+	}
+	return ev
 }
